@@ -24,6 +24,13 @@ type GenCfg struct {
 	NoCommitOnly bool
 	// Weights overrides the default weight of call kinds
 	Weights map[OpKind]int
+	// NewLife: a replica whose node data was removed may be written again (a new
+	// life: first save carries a state, the log restarts at 1 or at a snapshot)
+	NewLife bool
+	// GiantOneIn: one in so many updates with entries gets one command of
+	// 40-120 KB, so that the marshalled update spans several 32 KiB record blocks
+	// of tan (0: never)
+	GiantOneIn int
 	// AllowS2 / AllowS3 decide whether a call of the known-finding shape may be
 	// generated this time (nil: never). Count is told about exclusions.
 	AllowS2 func(t *rapid.T) bool
@@ -264,6 +271,10 @@ func genUpdate(t *rapid.T, m *Model, r *Rep, tr Traits, cfg *GenCfg, labels *[]s
 	kind := rapid.SampledFrom(kinds).Draw(t, "ukind")
 	seed := rapid.Uint64().Draw(t, "eseed")
 	term := maxU(r.Term, 1)
+	if r.Removed {
+		term = r.Term + 1
+		*labels = append(*labels, "new-life")
+	}
 	lastAfter := r.Last
 	minCommit := r.Commit()
 	stateTerm := term
@@ -317,6 +328,16 @@ func genUpdate(t *rapid.T, m *Model, r *Rep, tr Traits, cfg *GenCfg, labels *[]s
 		}
 	case "restore":
 		si := genRestoreIndex(t, r, bs)
+		if r.Removed && r.GoneLast > 1 {
+			// a new life that starts from a snapshot: below or above the end of the
+			// removed life
+			if rapid.IntRange(0, 1).Draw(t, "nlsi") == 0 {
+				si = 1 + uint64(rapid.IntRange(0, int(r.GoneLast-2)).Draw(t, "nlbelow"))
+				*labels = append(*labels, "new-life-snapshot-below-old-end")
+			} else {
+				si = r.GoneLast + uint64(rapid.IntRange(1, 10).Draw(t, "nlabove"))
+			}
+		}
 		sterm := term
 		if si <= r.Last {
 			// a restore inside the log only happens when the term at si differs
@@ -358,6 +379,21 @@ func genUpdate(t *rapid.T, m *Model, r *Rep, tr Traits, cfg *GenCfg, labels *[]s
 		*labels = append(*labels, "restore-snap")
 	case "state":
 		*labels = append(*labels, "state-only")
+	}
+	if n := len(u.EntriesToSave); cfg.GiantOneIn > 0 && n > 0 &&
+		rapid.IntRange(0, cfg.GiantOneIn-1).Draw(t, "giant") == 0 {
+		k := rapid.IntRange(0, n-1).Draw(t, "giantat")
+		sz := rapid.IntRange(40000, 120000).Draw(t, "giantsz")
+		cmd := make([]byte, sz)
+		x := seed
+		for j := 0; j < sz; j += 8 {
+			x = splitmix(x)
+			for b := 0; b < 8 && j+b < sz; b++ {
+				cmd[j+b] = byte(x >> (8 * b))
+			}
+		}
+		u.EntriesToSave[k].Cmd = cmd
+		*labels = append(*labels, "giant-command")
 	}
 	withState := !r.HasState || kind == "state" || kind == "restore" || stateTerm != r.State.Term ||
 		rapid.IntRange(0, 9).Draw(t, "withstate") < 6
@@ -531,6 +567,24 @@ func GenOp(t *rapid.T, m *Model, tr Traits, cfg *GenCfg) Op {
 		}
 		switch k {
 		case OpSave:
+			if cfg.NewLife {
+				var gone []int
+				for i, r := range m.Reps {
+					if !r.Removed {
+						continue
+					}
+					if !tr.Tan && r.RemovedGen == m.Gen {
+						// known finding S12: Pebble's caches still describe the removed
+						// life until the store is reopened
+						cfg.count("excluded-" + SigS12)
+						continue
+					}
+					gone = append(gone, i)
+				}
+				if len(gone) > 0 && rapid.IntRange(0, 2).Draw(t, "newlife") == 0 {
+					return GenSave(t, m, tr, cfg, rapid.SampledFrom(gone).Draw(t, "rep"))
+				}
+			}
 			if len(live) == 0 {
 				continue
 			}
